@@ -652,6 +652,21 @@ class Executor:
                     if t is co:
                         ctx.fail("I7-self-target", f"alias {dotted} targets itself")
                         return False
+                    if t is not None and not t.is_alias and t.members:
+                        # (3) lookups that pass *through* a resolved alias: dotted, tuple, item and chained spellings
+                        # all lead to a view of the same member of the target
+                        n0 = next(iter(t.members))
+                        want = t.members[n0]
+                        try:
+                            views = [coll.get_member(f"{dotted}.{n0}"), coll.get_member((*p, n0)), coll[f"{dotted}.{n0}"], co.get_member(n0), co[n0], coll[dotted][n0]]
+                            finals = [v.target if v.is_alias else v for v in views]
+                        except Exception as e:  # noqa: BLE001
+                            ctx.fail("I3-alias-lookup", f"{dotted}.{n0}: lookup through the resolved alias raised {type(e).__name__}: {e}", exc=e)
+                            return False
+                        if not all(f is want for f in finals) or not all(v.path == f"{dotted}.{n0}" for v in views if v.is_alias):
+                            ctx.fail("I3-alias-lookup", f"{dotted}.{n0}: dotted/tuple/item/chained lookups through the alias disagree or carry the wrong path")
+                            return False
+                        ctx.probe("lookups-through-alias")
                     if t is not None and t.is_alias:
                         # the target is itself an alias: its `aliases` is a proxy for whatever it resolves to now
                         ctx.probe("alias-targets-alias")
